@@ -145,6 +145,8 @@ SPEC = {
             "chain error; its define list is read back through front-end verdicts of probing files); plus generated "
             "object-like-macro / conditional-directive programs run through the real preprocessor with each target's observed "
             "define list and compared with the Lean macro model (a quarter of them mention RSSL_TARGET_* on purpose); "
+            "every cross program is compiled again with no_pipeline_mode() and with pipeline_name(<one of its pipelines>) on "
+            "the five configurations and judged by the same oracle in that mode (C18.mode); "
             "non-trivial = accepted file with resources and pipelines / preprocessor program with macros that produces output",
     "level_text": "Proof of the logic plus source inventories: (1) for a compact executable model of the preprocessor (object-like "
                   "macros with the disabled-set recursion rule, #define/#undef table discipline, the condition chain with its "
@@ -185,7 +187,16 @@ SPEC = {
                   "(`front_end_diagnostic_same_for_every_target`); MetalBytecode without tool chain has the closed form front "
                   "diagnostic / no pipeline / first pipeline's Metal export error / MetalCompilerNotFound "
                   "(`metal_bytecode_without_toolchain`), which the model executable uses to predict the fifth verdict of every "
-                  "C18.cross case from the Msl run. Covered mode: all pipelines (no pipeline_name / no_pipeline_mode in the step model). "
+                  "C18.cross case from the Msl run. Covered mode of the step model: all pipelines. "
+                  "(8) The other modes of compile() - one named pipeline, no_pipeline_mode() (module exported with "
+                  "selected_pipeline = None) - are covered for the reflection: both generate_module functions are read on "
+                  "every run for whether the analyse_bindings loop runs, and its result is returned, independently of a "
+                  "selected pipeline (`bindings_reported_without_pipeline`, falsified by seed C18-7), `bindingsInMode` "
+                  "interprets the extracted facts, and the target-independence theorems for kinds / counts (full), names "
+                  "(partial, same hypothesis), DirectX-vs-Vulkan (full) and stage kinds / sizes (full) are restated with the "
+                  "mode universally quantified (`*_in_every_mode`); every generated program is also compiled in no-pipeline "
+                  "mode and for one named pipeline on all five configurations (stream C18.mode: model predicts the four "
+                  "reports, the oracle applies the property in that mode). "
                   "Not modelled: function-like macros / ## / "
                   "#include (C12's model; exercised by the harness variants include / pp-macros / ctl-concat).",
     "trusted_base": [
@@ -201,6 +212,10 @@ SPEC = {
         "tools/gens/c18.py step order: regex marks for the steps of compile() / build_pipeline() sorted by source position, "
         "brace matching for the match arms and the MetalBytecode guard; Model/CompileSteps.lean says what each step does "
         "(hand-written, tied by the predicted fifth verdict in C18.cross: front / back / tool per case)",
+        "tools/gens/c18.py hlslBindingsReportedWithoutPipeline / mslBindingsReportedWithoutPipeline: text facts about the two "
+        "generate_module functions and msl generate_pipeline (call not under a test of selected_pipeline, Option parameter, "
+        "analyse_bindings loop first, its result returned); Model.Targets.bindingsInMode says what a false fact would mean "
+        "(empty reflection without a pipeline), tied by the C18.mode correspondence stream",
         "modelling assumption: parse / type_check / check_layout are functions of the token stream only (they take no target "
         "argument: frontShape.frontEndDoesNotNameTarget + frontEndArgReads)",
     ],
